@@ -12,11 +12,15 @@ RULE = ("stream system judged by `kmodel sysobjects C14`: seeded histories (ROA/
 
 DUE = ["before_next=30", "next_hours=24"]
 RENEW = ["roa_reissue=60", "aspa_reissue=60", "bgpsec_reissue=60"]
+# margins that differ per object kind: only one kind is inside its margin (a kind reading another kind's margin shows)
+RENEW1 = [["roa_reissue=60"], ["aspa_reissue=60"], ["bgpsec_reissue=60"], ["bgpsec_weeks=6", "bgpsec_reissue=8", "aspa_reissue=4"]]
 QUICK = [("default", 6, 14, ["profile=maint"]), ("due", 10, 14, DUE + ["profile=maint"]),
-         ("renew", 6, 12, RENEW + ["profile=maint"]), ("rolldue", 6, 16, DUE + ["profile=roll,maint"])]
+         ("renew", 4, 12, RENEW + ["profile=maint"]), ("renew1", 2, 12, RENEW1[2] + ["profile=maint"]),
+         ("rolldue", 6, 16, DUE + ["profile=roll,maint"])]
 THOROUGH = [("default", 90, 30, ["profile=maint"]), ("due", 170, 30, DUE + ["profile=maint"]),
             ("renew", 90, 30, RENEW + ["profile=maint"]), ("rolldue", 110, 40, DUE + ["profile=roll,maint"]),
-            ("rollrenew", 60, 40, RENEW + ["profile=roll,maint"]), ("plain", 40, 30, [])]
+            ("rollrenew", 60, 40, RENEW + ["profile=roll,maint"]), ("plain", 40, 30, [])] + \
+           [(f"renew1-{i}", 24, 30, r + ["profile=maint"]) for i, r in enumerate(RENEW1)]
 
 ASSUME = [
     "the wall clock is not controlled: 'due' is reached through the timing configuration (margins larger than lifetimes, set "
